@@ -16,8 +16,12 @@ from run_on_patch import run  # noqa: E402
 def main():
     areas = sys.argv[1:] or sorted(d for d in os.listdir("/verif/benign") if os.path.isdir(f"/verif/benign/{d}"))
     patches = [p for a in areas for p in sorted(glob.glob(f"/verif/benign/{a}/refactor_*.diff"))]
+    res = []
     with ThreadPoolExecutor(8) as ex:
-        res = list(ex.map(run, patches))
+        for p_, r_ in zip(patches, ex.map(run, patches)):  # (progress on stderr: a long run can be read while it goes)
+            res.append(r_)
+            det_, err_ = r_
+            print(f"[{len(res)}/{len(patches)}] {p_.replace('/verif/benign/', '')}: " + ("does not apply" if err_ else ("FALSE ALARM " + ",".join(k for k, x in det_.items() if x["rc"] == 1)) if any(x["rc"] == 1 for x in det_.values()) else "silent" + (" [exit2: " + ",".join(k for k, x in det_.items() if x["rc"] == 2) + "]" if any(x["rc"] == 2 for x in det_.values()) else "")), file=sys.stderr, flush=True)
     lines = ["| refactoring | violations (false alarms) | exit 2 (shape not recognised) |", "|---|---|---|"]
     fa = 0
     for p, (det, err) in zip(patches, res):
